@@ -414,6 +414,14 @@ fn odd_chunk_line(r: &mut Rng, v: &mut Vec<u8>) {
     if r.chance(1, 2) {
         v.push(b';');
         v.extend_from_slice(b"ext");
+        if r.chance(1, 3) {
+            // a longer extension with a lone CR at a random lane
+            let n = r.range(20, 200);
+            let at = r.below(n);
+            for i in 0..n {
+                v.push(if i == at { b'\r' } else { *r.pick(b"xy=;\"") });
+            }
+        }
     }
     if r.chance(1, 6) {
         v.push(*r.pick(b"gGxz-\n:"));
@@ -1045,7 +1053,7 @@ pub fn gen_adversarial(seed: u64, max_len: usize) -> Trace {
         _ => 0,
     };
     t.entry = draw_entry(&mut rk, t.cfg);
-    t.cap = *rk.pick(&[0usize, 4, 64, 4096, 70000]);
+    t.cap = *rk.pick(&[0usize, 4, 64, 4096, 70000, 100000]);
     t.backend = rk.below(4) as u8;
     t.arr_guard = true;
     t.knob_seed = rk.next();
@@ -1295,7 +1303,56 @@ pub fn family_input(fam: usize, size: usize) -> Option<(Kind, u8, usize, Vec<u8>
             v.extend_from_slice(b"OK\r\n\r\n");
             (Kind::Resp, 8, 8, v)
         }
+        16 => {
+            v.extend_from_slice(b"1");
+            fill(&mut v, b" \t  ", body);
+            v.extend_from_slice(b"\r\n");
+            (Kind::Chunk, 0, 0, v)
+        }
+        17 => {
+            v.extend_from_slice(b"HTTP/1.1 200 OK\r\nX-Padded");
+            fill(&mut v, b"  \t ", body);
+            v.extend_from_slice(b":v\r\n\r\n");
+            (Kind::Resp, 1, 8, v)
+        }
+        18 => {
+            fill(&mut v, b"\r\n\n", body);
+            v.extend_from_slice(b"GET / HTTP/1.1\r\n\r\n");
+            (Kind::Req, 0, 8, v)
+        }
+        19 => {
+            v.extend_from_slice(b"GET");
+            fill(&mut v, b"    ", body / 2);
+            v.extend_from_slice(b"/");
+            fill(&mut v, b"    ", body);
+            v.extend_from_slice(b"HTTP/1.1\r\n\r\n");
+            (Kind::Req, 4, 8, v)
+        }
+        20 => {
+            v.extend_from_slice(b"HTTP/1.1 200 OK\r\n");
+            fill(&mut v, b"Xabcdefg", body);
+            v.extend_from_slice(b": v\r\n\r\n");
+            (Kind::Resp, 0, 8, v)
+        }
+        21 => {
+            v.extend_from_slice(b"HTTP/1.1 200 ");
+            fill(&mut v, b"reason \t", body);
+            v.extend_from_slice(b"\r\n\r\n");
+            (Kind::Resp, 0, 8, v)
+        }
+        22 => {
+            v.extend_from_slice(b"HTTP/1.1 200 OK\r\n");
+            fill(&mut v, b" \t  ", body);
+            v.extend_from_slice(b"Name: v\r\n\r\n");
+            (Kind::Resp, 16, 8, v)
+        }
+        23 => {
+            v.extend_from_slice(b"HTTP/1.1 200 OK\r\nA:");
+            fill(&mut v, b" \t  ", body);
+            v.extend_from_slice(b"\r\n\r\n");
+            (Kind::Resp, 2, 8, v)
+        }
         _ => return None,
     })
 }
-pub const FAMILIES: usize = 16;
+pub const FAMILIES: usize = 24;
